@@ -2,6 +2,7 @@ package main
 
 import (
 	"bytes"
+	"time"
 	"fmt"
 	"strings"
 
@@ -71,6 +72,9 @@ func c04gen(r *gen.R) c04case {
 		default:
 			key = uniq + r.SimpleKey("")
 		}
+		if r.P(6) && key != "" {
+			key += gen.Pick(r, []string{".time", ".level", ".msg", ".caller", ".logger", "time", ".error"}) // names of the envelope as suffixes: still ordinary keys
+		}
 		v := r.Value(o, 0)
 		if r.P(5) {
 			v = r.AttrVal(o, 1) // an Attr / group Attr in value position
@@ -115,8 +119,20 @@ func c04main(c *Ctx) {
 		case 4:
 			lg.Info("warm-up record in JSON", "w", "x")
 		}
-		evs := capture(log, func() { lg.LogAttrs(bg, cs.lvl, cs.msg, mixedArgs(cs.kvs)...) })
+		// a third of the records carry an instant of their own (WriteThru): the time member then decodes to that instant
+		tsKnown := desc0 == "-" && !cs.caller && r.P(30)
+		ts := r.Time()
+		evs := capture(log, func() {
+			if tsKnown {
+				lg.WriteThru(bg, cs.lvl, ts, thePC, cs.msg, attrsOf(cs.kvs))
+				return
+			}
+			lg.LogAttrs(bg, cs.lvl, cs.msg, mixedArgs(cs.kvs)...)
+		})
 		desc := describe(FJSON, cs.name, cs.msg, cs.lvl, cs.caller, cs.kvs)
+		if tsKnown {
+			desc["record_instant"] = ts.Format(time.RFC3339Nano)
+		}
 		desc["logger_timestamp_options"] = desc0
 		desc["other_flags"], desc["same_logger_logged_before_in"] = otherFlags, []string{"-", "-", "logfmt", "color", "json", "a record that panicked while being formatted (recovered)"}[warm]
 		c.R.Distinct("same_logger_logged_before_in", []string{"-", "-", "logfmt", "color", "json", "a record that panicked while being formatted (recovered)"}[warm])
@@ -127,6 +143,21 @@ func c04main(c *Ctx) {
 		}
 		payload := evs[0].Data
 		viols := c04check(payload, cs)
+		if tsKnown && len(viols) == 0 {
+			fl := slog.GetFlags()
+			if layout, ok := c16flagTable[fl&(slog.Ldate|slog.Ltime|slog.Lmicroseconds)]; ok && ts.Year() >= 0 && ts.Year() <= 9999 {
+				t := ts
+				if fl&slog.LlocalTime == 0 {
+					t = ts.UTC()
+				}
+				if d, err := decodeRecord(FJSON, payload, cs.name != "", false); err == nil {
+					c.R.Add("timestamps_decoded_against_a_known_instant", 1)
+					if why := flagTimestampProblem(d.Time, layout, t, fl); why != "" {
+						viols = append(viols, cv{"envelope-time", fmt.Sprintf("the time member %q does not decode to the record's instant %s (flags %s): %s", d.Time, t.Format(time.RFC3339Nano), flagNames(fl), why)})
+					}
+				}
+			}
+		}
 		if len(viols) == 0 {
 			c.R.Add("records_decoded", 1)
 			c.R.Add("attrs_checked", int64(len(cs.kvs)))
